@@ -899,6 +899,10 @@ def run(tier: str, driver_ok: bool) -> Result:
         base = example_base(scratch)
         global SHARED
         SHARED = Shared(base)
+        # exit statuses first: a violation there (F3) is the first one reported
+        for other in OTHER_STREAMS:
+            if other is main_stream:
+                other(res, tier, r, scratch, driver_ok)
         cases: list[dict[str, Any]] = list(example_cases(base, tier, r))
         for extra in EXTRA_TREE_STREAMS:
             cases.extend(extra(base, tier, r, scratch))
@@ -910,7 +914,8 @@ def run(tier: str, driver_ok: bool) -> Result:
             if len(res.samples) < 3 and c["tag"] in ("unchanged", "delete:request_policy.num_bundles", "bound:0:request_policy.num_bundles"):
                 res.sample({"tag": c["tag"], "impl": summarise(i), "model": summarise(m), "oracle": oracle.verdict(c["tree"])[0]})
         for other in OTHER_STREAMS:
-            other(res, tier, r, scratch, driver_ok)
+            if other is not main_stream:
+                other(res, tier, r, scratch, driver_ok)
         SHARED = None
     return res
 
@@ -1303,6 +1308,8 @@ def main_cases(base: dict[str, Any], scratch: Path) -> list[dict[str, Any]]:
         return t
 
     trees: list[tuple[str, Any]] = [
+        ("validation:minimal", {"request_policy": {"bogus_option": 1}}),
+        ("configuration:minimal", {"request_policy": {"num_bundles": 0}}),
         ("valid:example-without-ksr", ok),
         ("valid:empty-map", {}),
         ("valid:only-hsm", {"hsm": {"softhsm": {"module": "m.so"}}}),
@@ -1311,7 +1318,6 @@ def main_cases(base: dict[str, Any], scratch: Path) -> list[dict[str, Any]]:
         ("configuration:num_bundles=-1", mut(("request_policy", "num_bundles"), -1)),
         ("configuration:horizon=0", mut(("request_policy", "signature_horizon_days"), 0)),
         ("configuration:distinct-keys=0", mut(("request_policy", "num_different_keys_in_all_bundles"), 0)),
-        ("configuration:minimal", {"request_policy": {"num_bundles": 0}}),
         ("validation:unknown-top-level", mut(("bogus_section",), {})),
         ("validation:unknown-request-option", mut(("request_policy", "bogus_option"), 1)),
         ("validation:unknown-response-option", mut(("response_policy", "bogus_option"), 1)),
@@ -1320,7 +1326,6 @@ def main_cases(base: dict[str, Any], scratch: Path) -> list[dict[str, Any]]:
         ("validation:unknown-schema-slot-option", mut(("schemas", "normal", 1, "bogus_option"), "ksk_current")),
         ("validation:unknown-hsm-option", mut(("hsm", "softhsm", "bogus_option"), 1)),
         ("validation:unknown-filenames-option", mut(("filenames", "bogus_option"), "x")),
-        ("validation:minimal", {"request_policy": {"bogus_option": 1}}),
         ("validation:negative-ttl", mut(("ksk_policy", "ttl"), -1)),
         ("validation:negative-dns-ttl", mut(("request_policy", "dns_ttl"), -1)),
         ("validation:rsa-size-0", mut(("keys", "ksk_next", "rsa_size"), 0)),
